@@ -35,14 +35,22 @@ impl = fitcase.impl_fit
 shrink = fitcase.shrink
 
 
-def model_requests(case):
+MODEL_NEEDS_IMPL = True
+
+
+def model_requests(case, im=None):
     import numpy as np
     d0, d1 = case['drange']
     L = float(np.log10(d1) - np.log10(d0))
     ds, logds = fitcase.grid_of(case)
-    return [fitcase.model_request(case),
+    reqs = [fitcase.model_request(case),
             ('ndist', [F(L), F(case['logd_step'])]),
             ('gridlog', [F(float(np.log10(d0))), F(float(np.log10(d1))), max(len(ds), 2)])]
+    # remove_resolved=True: FitMask.fit3_pkg_masked with the implementation's own `extended` array as the mask
+    if isinstance(im, dict) and im.get('rr_ext') and isinstance(im.get('rr'), dict) and im['rr'].get('n_distances') == len(ds):
+        op, args = reqs[0]
+        reqs.append(('fit3_pkg_masked', args + [im['rr_ext']]))
+    return reqs
 
 
 def _interp_clamp(aps, fl, r):
@@ -61,7 +69,7 @@ def judge(case, im, mo):
             'drange=%s' % ('equal' if case['drange'][0] == case['drange'][1] else 'range')]
     if any(isinstance(m, tuple) for m in mo):
         return dict(disagree=['driver %r' % ([m for m in mo if isinstance(m, tuple)][:1],)], fail=[], nontrivial=False)
-    (m11, alaw, opt), nmodel, glog = mo
+    (m11, alaw, opt), nmodel, glog = mo[:3]
     disagree, fail = [], []
     too_small_model = (opt == [])
     # the documented refusal, evaluated directly
@@ -147,6 +155,15 @@ def judge(case, im, mo):
         fail.append('raised: remove_resolved=True raised %s' % rr['exc'])
     elif isinstance(rr, dict):
         tags.append('rr-differs=%s' % (rr['chi2'] != im['chi2']))
+        # correspondence with FitMask.fit3_pkg_masked (mask = the implementation's own array)
+        if len(mo) > 3 and not isinstance(mo[3], tuple) and mo[3] and sorted(rr['model_id']) == list(range(len(case['names']))):
+            mres = mo[3][0]
+            for i, mid in enumerate(rr['model_id']):
+                d3, _ = fitcase.cmp3d_row(rr, i, mres[mid], 1e-8)
+                for x in d3:
+                    disagree.append('remove_resolved=True, %s: %s' % (rr['model_name'][i], x))
+                if d3:
+                    break
         if sorted(rr['model_id']) != list(range(len(case['names']))):
             fail.append('row: remove_resolved=True: model_id %r is not a permutation' % (rr['model_id'],))
         else:
